@@ -38,6 +38,8 @@ CONFIGS = {
         (12, "e", 90, "641.928232294317", "-146750669817.214345"),
         (3, "D", 30, "1.000000000000", "-2700.250000"),
         (5, "E", 120, "29.946923000000", "-0.750000"),
+        # a single coefficient (NCOEFF = 1)
+        (1, "e", 30, "641.928232294317", "146750669817.214345"),
     ],
 }
 CONFIGS["thorough"] = CONFIGS["quick"] + [
@@ -244,7 +246,10 @@ def check_predictor(res, case, p, entries, sub0, tag):
     for k, e in enumerate(entries):
         # (the 4th and 5th reference times are 100 ns / 400 ns after the 3rd: distinct requests, distinct answers)
         m3 = e.start + F(31, 86400)
-        for m0 in (e.tmid, e.tmid + F(600, 86400), m3, m3 + F(1, 10 ** 7) / 86400, m3 + F(4, 10 ** 7) / 86400):
+        # (reference times just inside a power-of-two number of seconds from TMID, where the ulp of the offset changes)
+        pow2 = [e.tmid + F(sg * v, 86400) for v in (F(10235, 10), F(20479, 10), F(5117, 10)) for sg in (1, -1)
+                if e.start < e.tmid + F(sg * v, 86400) < e.stop]
+        for m0 in [e.tmid, e.tmid + F(600, 86400), m3, m3 + F(1, 10 ** 7) / 86400, m3 + F(4, 10 ** 7) / 86400] + pow2:
             t0 = mjd_time(m0)
             me0 = exact_mjd(t0)
             sub = dict(sub0, entry=k, t0=float(me0))
